@@ -8,7 +8,7 @@ Proof: lean/PsycheModel/Props/C11.lean: (a) for all 18 arithmetic kinds, every o
 Oracle sweep (the property itself): ~8,300 single-construct test functions over a prelude of declarations of every
 arithmetic type, pointers, arrays, structs/unions/enums, typedef chains and prototyped/variadic functions; gcc (the
 property's flags) decides line by line which are valid C; every valid one must draw no Error diagnostic."""
-import collections, concurrent.futures, re, sys
+import collections, concurrent.futures, json, os, re, sys
 from .. import stages
 from ..common import ROOT, sh
 sys.path.insert(0, ROOT)
@@ -37,9 +37,14 @@ def run(ctx):
     progs = [program(c, i * CH) for i, c in enumerate(chunks)]
     with concurrent.futures.ThreadPoolExecutor(16) as ex:
         bads = list(ex.map(lambda p: gcc_bad_lines(p[0]), progs))
+    for (text, where), bad in zip(progs, bads):
+        stray = [l for l in bad if l not in where]
+        if stray:
+            raise RuntimeError("generator error: gcc rejects a line of the prelude (line %d: %r) - the oracle presupposes a valid prelude" % (stray[0], text.split("\n")[stray[0] - 1][:120]))
     lines = [p[0].encode().hex() for p in progs]
     ans = stages.run_harness(ctx, "sema", lines, flavour="ndebug")
     nvalid = nrej = nknown = ncrash = 0
+    dump = open(os.environ["VERIF_C11_DUMP"], "w") if os.environ.get("VERIF_C11_DUMP") else None     # maintenance: list every rejection with its key
     diag_hist = collections.Counter()
     for (text, where), bad, o, chunk, line in zip(progs, bads, ans, chunks, lines):
         valid = [l for l in where if l not in bad]
@@ -70,6 +75,8 @@ def run(ctx):
             diag_hist[id_] += 1
             key = "reject:%s:%s" % (id_, stmt if ln in where else "prelude:" + src[:60])
             nrej += 1
+            if dump:
+                dump.write(json.dumps({"key": key, "src": src}) + "\n")
             if ctx.report(key, "valid C (gcc accepts) draws error %s: %s" % (id_, src),
                           {"component": "sema", "case": (program([chunk[where[ln]]], 0)[0] if ln in where else text).encode().hex(), "text": src}) is False:
                 nknown += 1
